@@ -110,8 +110,11 @@ func ProfileFor(focus, arm string) Profile {
 			p.UpFaultNet = true
 		}
 		p.Rcodes = true
-	case "C04":
+	case "C04", "C20":
 		p.NConns, p.OpsPerConn = [2]int{8, 24}, [2]int{2, 8}
+		if focus == "C20" {
+			p.FailActs, p.MixedActs, p.Garbage = 0.15, 0.1, 0.05
+		}
 		p.SpanUs = 400_000
 		p.DelayUs = [2]int64{100, 200_000}
 		p.Cache = "mix"
@@ -178,6 +181,19 @@ var zones = []string{"example.com", "test.org", "a.b.c.net", "corp.internal", "x
 func Generate(seed uint64, focus, arm string) *plan.Plan {
 	r := &rng{s: seed*0x9E3779B97F4A7C15 + 0x1234567}
 	switch focus {
+	case "C20":
+		if arm == "xport" {
+			p := genXport(r, seed, []string{"C06", "C14", "C05", "C16"}[r.intn(4)], "faults")
+			p.Focus = "C20"
+			p.Knobs.Quarantine = 64
+			if p.Knobs.GetFill == 0 {
+				p.Knobs.GetFill = 1
+			}
+			if p.Knobs.YieldDensity == 0 {
+				p.Knobs.YieldDensity = 0.2
+			}
+			return p
+		}
 	case "C05", "C06", "C14", "C16":
 		return genXport(r, seed, focus, arm)
 	case "C18":
@@ -202,6 +218,12 @@ func Generate(seed uint64, focus, arm string) *plan.Plan {
 	p := &plan.Plan{Version: 1, Seed: seed, Family: "router", Focus: focus, Arm: arm}
 	p.Router = genRouter(r, &pr, focus, arm)
 	p.Knobs = genKnobs(r, &pr)
+	if focus == "C20" {
+		p.Knobs.Quarantine = 64
+		if p.Knobs.GetFill == 0 {
+			p.Knobs.GetFill = 1
+		}
+	}
 	specialize(r, p, focus, arm)
 	return p
 }
@@ -658,15 +680,22 @@ func genEntry(r *rng) string {
 }
 
 func makeGarbage(r *rng, op *plan.ClientOp, proto string) {
+	// garbage gets a token of its own (not starting with 't', so that fake
+	// upstreams and oracles never attribute a still-decodable mutation to a
+	// valid operation that shares the original token)
+	op.Token = "g" + op.Token
+	if len(op.Labels) > 0 {
+		op.Labels = append([][]byte{[]byte(op.Token)}, op.Labels[1:]...)
+	}
 	valid := refdns.Pack(&refdns.Msg{ID: op.ID, Bits: op.Bits, Q: []refdns.Question{{Name: refdns.NameFromLabels(op.Labels...), Type: op.Type, Class: op.Class}}}, refdns.PackOpts{})
 	var b []byte
 	switch r.intn(10) {
 	case 0: // truncated at a random point
 		b = valid[:r.intn(len(valid))]
-	case 1: // bit flips
+	case 1: // bit flips (the id is kept, so that a reply is attributed to this op)
 		b = append([]byte(nil), valid...)
 		for n := r.rng(1, 4); n > 0; n-- {
-			b[r.intn(len(b))] ^= 1 << r.intn(8)
+			b[2+r.intn(len(b)-2)] ^= 1 << r.intn(8)
 		}
 	case 2: // counts that lie
 		b = append([]byte(nil), valid...)
